@@ -83,6 +83,25 @@ def pair(case):
   raise KeyError(kind)
 
 
+def systems_second_roots(case, p1):
+  """Initial states of both systems of a pair for other initial parameters (same long-lived algorithm objects)."""
+  kind, lr, hp = case['pair'], case['lr'], BATCHING[case['batching']]
+  co = case.get('copt', 'sgd')
+  bk = {'backend': case['backend']} if case.get('backend') else {}
+  if kind == 'fedprox0':
+    a, _ = systems.build('fed_prox', **bk, mu=0.0, copt=co, sopt='mom', lr_c=lr, lr_s=0.5, loss='rng', hp=hp)
+    b, _ = systems.build('fed_avg', **bk, copt=co, sopt='mom', lr_c=lr, lr_s=0.5, loss='rng', hp=hp)
+  elif kind == 'mimelite_sgd':
+    a, _ = systems.build('mime_lite', **bk, base='sgd', lr=lr, server_lr=1.0, loss='rng', hp=hp)
+    b, _ = systems.build('fed_avg', **bk, copt='sgd', sopt='sgd', lr_c=lr, lr_s=1.0, loss='rng', hp=hp)
+  elif kind == 'apfl_global':
+    a, _ = systems.build('apfl', **bk, coef=0.5, copt=co, sopt='mom', lr_c=lr, lr_s=0.5, loss='plain', hp=hp)
+    b, _ = systems.build('fed_avg', **bk, copt=co, sopt='mom', lr_c=lr, lr_s=0.5, loss='plain', hp=hp)
+  else:
+    return None
+  return a.init(p1), b.init(p1)
+
+
 def lockstep(case):
   depth = case['depth']
   step_a, ia, step_b, ib, pa, pb = pair(case)
@@ -122,6 +141,14 @@ def lockstep(case):
       outs.add(core.digest(algos.plist(gb)))
       rec(h2, na, nb)
   rec([], ia, ib)
+  if 'history' not in case and case['pair'] in ('fedprox0', 'mimelite_sgd', 'apfl_global'):
+    # second root: both long-lived systems are re-initialised with other parameters and stepped again (depth <= 2)
+    from fedjax.algorithms import fed_avg as _fa
+    p1 = algos.jparams({'w': [-1.0, 0.75], 'b': -0.25})
+    depth = min(depth, 2)
+    roots = systems_second_roots(case, p1)
+    if roots is not None:
+      rec([], roots[0], roots[1])
   return {'evals': stats['transitions'], 'states': stats['states'], 'transitions': stats['transitions'],
           'traces': stats['transitions'], 'outcomes': sorted(outs), 'nontrivial': True, 'violations': viols,
           'keys': [[case['pair'], case.get('copt', 'sgd'), case.get('backend', 'jit'), case['lr'], case['batching'], i] for i in range(stats['transitions'])],
